@@ -657,6 +657,23 @@ static void opCholesky(Rng& r, Ctx& c, int kind)
     for (int i = 0; i < n; i++) { q += y[i] * s[i]; ww += (LD)w[i] * w[i]; }
     c.close("LX-covariance", K + ":(Lw)'A^-1(Lw)=w'w", (double)q, (double)ww, tolv * (double)ww);
   }
+  // InvLtX alone (the simulation form x = L^-T w, covariance A^-1): x' A x == w' w for any factor P A P' = L L'
+  // -- also on the cs back-end, where LtX / LX are not implemented and the round trips above cannot isolate it
+  if (chol->InvLtX(w.getVector(), y.getVector()) == 0)
+  {
+    auto ay = ref::mulv(m, toLD(y));
+    LD q = 0, ww = 0;
+    for (int i = 0; i < n; i++) { q += y[i] * ay[i]; ww += (LD)w[i] * w[i]; }
+    c.close("InvLtX-covariance", K + ":(L^-T w)'A(L^-T w)=w'w", (double)q, (double)ww, tolv * (double)ww);
+  }
+  // InvLX alone: y = L^-1 P w  =>  y' y == w' A^-1 w
+  if (chol->InvLX(w.getVector(), y.getVector()) == 0)
+  {
+    auto s = lu.solve(toLD(w));
+    LD q = 0, yy = 0;
+    for (int i = 0; i < n; i++) { q += w[i] * s[i]; yy += (LD)y[i] * y[i]; }
+    c.close("InvLX-norm", K + ":|L^-1 w|^2=w'A^-1w", (double)yy, (double)q, tolv * ((double)q + 1e-300));
+  }
   // L(Lt x) == A x
   if (chol->LtX(w.getVector(), y.getVector()) == 0 && chol->LX(y.getVector(), u.getVector()) == 0)
   {
